@@ -110,7 +110,7 @@ Check(v) ==
 \* ------------------------------------------------------------------ binding: what Attach.tla can produce
 \* Reply classes of Attach.tla (comments at every Reply): the codes the modelled paths send.
 ReplyCodes(kind) ==
-  CASE kind = "sub"      -> {200, 304, 503, 404, 403, 401}   \* attached | already | locked/queue full | load failed | refused
+  CASE kind = "sub"      -> {200, 304, 503, 404, 500, 403, 401}   \* attached | already | locked/queue full | load failed (not found, store error) | refused
     [] kind = "leave"    -> {200, 304, 503, 404}              \* left | not joined | locked
     [] kind = "unsub"    -> {200, 304, 403, 409, 503, 404}    \* unsubscribed+evicted | no action | owner/me | attach first | locked
     [] kind = "deltopic" -> {200, 304, 403, 503, 404, 500}    \* deleted | no action | forwarded: unsub classes
